@@ -249,7 +249,8 @@ fn read_history(rec: &mut Rec, rng: &mut Rng, n_ops: usize, interned: &[(usize, 
         }
         if r < 8 || hs.is_empty() {
             let sc = *rng.pick(SCALAR_SCOPES);
-            let line = match rng.below(7) {
+            let line = match rng.below(8) {
+                7 => format!("str {}", sc),
                 6 => format!("iprop {} {}", sc, interned.first().map(|x| x.0).unwrap_or(0)),
                 0 => format!("idx {} {}", sc, rng.below(3)),
                 1 => format!("key {} {}", sc, rng.below(3)),
